@@ -199,9 +199,7 @@ func (c *regexpSimplifyChecker) walk(e syntax.Expr) {
 			c.score++
 		} else {
 			out.WriteString("[^")
-			for _, e := range e.Args {
-				c.walk(e)
-			}
+			c.walkCharClassArgs(e.Args)
 			out.WriteString("]")
 		}
 
@@ -212,9 +210,7 @@ func (c *regexpSimplifyChecker) walk(e syntax.Expr) {
 			c.score++
 		} else {
 			out.WriteString("[")
-			for _, e := range e.Args {
-				c.walk(e)
-			}
+			c.walkCharClassArgs(e.Args)
 			out.WriteString("]")
 		}
 
@@ -239,6 +235,18 @@ func (c *regexpSimplifyChecker) walk(e syntax.Expr) {
 
 	default:
 		out.WriteString(e.Value)
+	}
+}
+
+// walkCharClassArgs walks char class elements.
+func (c *regexpSimplifyChecker) walkCharClassArgs(args []syntax.Expr) {
+	for i, e := range args {
+		if e.Op == syntax.OpCharRange && i+1 < len(args) && args[i+1].Op == syntax.OpChar && args[i+1].Value == "-" {
+			// Don't expand `a-a` in `[a-a-c]`: the following `-` would form a new range.
+			c.out.WriteString(e.Value)
+			continue
+		}
+		c.walk(e)
 	}
 }
 
@@ -327,7 +335,7 @@ func (c *regexpSimplifyChecker) simplifyCharClass(e syntax.Expr) string {
 		switch e.Args[0].Op {
 		case syntax.OpChar:
 			switch v := e.Args[0].Value; v {
-			case "|", "*", "+", "?", ".", "[", "^", "$", "(", ")":
+			case "|", "*", "+", "?", ".", "[", "^", "$", "(", ")", "{":
 				// Can't take outside of the char group without escaping.
 			default:
 				return v
@@ -385,7 +393,7 @@ func (c *regexpSimplifyChecker) canCombine(x, y syntax.Expr) (threshold int, ok 
 }
 
 func (c *regexpSimplifyChecker) concatLiteral(e syntax.Expr) string {
-	if e.Op == syntax.OpConcat && c.allChars(e) {
+	if e.Op == syntax.OpConcat && len(e.Args) != 0 && c.allChars(e) {
 		return e.Value
 	}
 	return ""
@@ -398,6 +406,18 @@ func (c *regexpSimplifyChecker) allChars(e syntax.Expr) bool {
 		}
 	}
 	return true
+}
+
+// hasCharClassMeta reports whether any of the e char args
+// has a special meaning inside a char class.
+func (c *regexpSimplifyChecker) hasCharClassMeta(e syntax.Expr) bool {
+	for _, a := range e.Args {
+		switch a.Value {
+		case "]", "-", "^", `\`:
+			return true
+		}
+	}
+	return false
 }
 
 func (c *regexpSimplifyChecker) factorPrefixSuffix(alt syntax.Expr) bool {
@@ -441,7 +461,7 @@ func (c *regexpSimplifyChecker) factorPrefixSuffix(alt syntax.Expr) bool {
 
 func (c *regexpSimplifyChecker) walkAlt(alt syntax.Expr) {
 	// `x|y|z` -> `[xyz]`.
-	if c.allChars(alt) {
+	if c.allChars(alt) && !c.hasCharClassMeta(alt) {
 		c.score++
 		c.out.WriteString("[")
 		for _, e := range alt.Args {
@@ -513,6 +533,12 @@ func (c *regexpSimplifyChecker) simplifyCharRange(rng syntax.Expr) string {
 	lo := rng.Args[0].Value
 	hi := rng.Args[1].Value
 	if len(lo) == 1 && len(hi) == 1 {
+		for ch := lo[0]; ch <= hi[0] && hi[0]-lo[0] <= 2; ch++ {
+			switch ch {
+			case '-', ']', '[', '^', '\\':
+				return "" // Would need escaping inside a char class
+			}
+		}
 		switch hi[0] - lo[0] {
 		case 0:
 			return lo
